@@ -15,7 +15,7 @@ from props import c04
 
 RULE = ("for generated directories of well-formed PELs: every directory mode (-n -l -a --plid --src --src-exclude, with and without -x, and -j) "
         "is run through the real peltool main() on the directory alone and on the directory plus junk (empty, truncated, corrupted, "
-        "random, header-damaged files, a PEL whose PCE size field is too small, subdirectories); junk is classified with the Coq model "
+        "random, header-damaged and unreadable files (a link whose target is gone), a PEL whose PCE size field is too small, subdirectories); junk is classified with the Coq model "
         "(a file all three partial decoders reject); stdout must be byte-identical, valid JSON, exit status 0, diagnostics on stderr only; "
         "non-trivial = directory pair with >= 1 PEL and >= 1 junk file")
 
@@ -33,6 +33,9 @@ def classify_junk(model, files, plugins):
     """(junk every mode rejects, junk only the count mode accepts - its two headers are intact)"""
     j_all, j_la = [], []
     for name, data, meta in files:
+        if meta.get("kind") == "unreadable":
+            j_all.append((name, data, meta))
+            continue
         acc = []
         for mode in (0, 1, 2):
             m = pelgen.to_py(dirgen.model_cli(model, mode, [(name, data, meta)], plugins=plugins, bits=1))
@@ -53,7 +56,7 @@ def run_modes(d, modes, outdir):
             os.makedirs(od)
             a += ["-o", od]
             rc, out, err = cli_runner.run_inproc(a)
-            res[key] = (rc, out, err, sorted(os.listdir(od)))
+            res[key] = (rc, out, err, sorted((n, open(os.path.join(od, n), "rb").read().decode("utf-8", "replace")) for n in os.listdir(od)))
         else:
             res[key] = cli_runner.run_inproc(a) + (None,)
     return res
@@ -92,7 +95,7 @@ def check_pair(run, model, rng, good, junk, plugins, bits, i):
             run.nontriv(tuple(f[0] for f in good + junk))
         run.count("junk:%d" % len(junk))
         rp = dict(fn="junk", good=[[f[0], f[1].hex()] for f in good], junk=[[f[0], f[1].hex()] for f in junk], subdirs=subdirs,
-                  plugins=plugins, bits=bits)
+                  plugins=plugins, bits=bits, unreadable=[f[0] for f in junk if f[2].get("kind") == "unreadable"])
         for key, argv in modes:
             rc1, out1, err1, files1 = r1[key]
             rc2, out2, err2, files2 = r2[key]
@@ -105,10 +108,13 @@ def check_pair(run, model, rng, good, junk, plugins, bits, i):
                               dict(rp, kind="S", mode=key, argv=argv, without=out1[:600], with_junk=out2[:600]))
                 continue
             if key == "-j":
+                import re
                 junknames = {f[0] for f in junk}
-                f2 = [x for x in files2 if not any(x.startswith(j + ".") for j in junknames)]
+                f2 = [x for x in files2 if not any(re.fullmatch(re.escape(j) + r"\.[0-9A-Fa-f]{8}\.json", x[0]) for j in junknames)]
                 if files1 != f2:
-                    run.violation("json-files-changed", "-j writes different files for the good PELs when junk is present", dict(rp, kind="S", a=files1, b=files2))
+                    run.violation("json-files-changed", "-j writes different files for the good PELs when junk is present",
+                                  dict(rp, kind="S", a=[x[0] for x in files1], b=[x[0] for x in files2],
+                                       differing=[x[0] for x in files1 if x not in f2][:5]))
                 if out2.strip():
                     run.violation("stdout-noise:-j", "-j writes diagnostics to standard output", dict(rp, kind="S", stdout=out2[:300]))
             elif key.endswith("x"):
@@ -128,7 +134,7 @@ def replay_file(run, model, path):
         return False
     import random
     good = [(n, bytes.fromhex(h), dict(kind="pel", eid=int.from_bytes(bytes.fromhex(h)[44:48], "big"))) for n, h in r["good"]]
-    junk = [(n, bytes.fromhex(h), dict(kind="junk")) for n, h in r["junk"]]
+    junk = [(n, bytes.fromhex(h), dict(kind="unreadable" if n in r.get("unreadable", []) else "junk")) for n, h in r["junk"]]
     check_pair(run, model, random.Random(1), good, junk, r.get("plugins", True), r.get("bits", 1), 0)
     return True
 
@@ -156,6 +162,18 @@ def run(run, model, proof):
         junk = [f for f in withjunk if f[0] not in used]
         if rng.random() < 0.4:
             junk.append(("pce_small_%d.pel" % i, pce_small_pel(0x7000 + i), dict(kind="junk")))
+        if rng.random() < 0.4:
+            # a good PEL decoded by a shipped parser module, and an undecodable file whose complete first section makes that
+            # same module fail before the file turns out to be truncated; the junk sorts before or after the good one
+            sig = b"\0\0\0\1" + bytes(rng.randrange(256) for _ in range(12))
+            g = dirgen.set_ids(c04.mini_pel(b"O", [(b"UD", 1, 1, 0xE500, sig)]), eid=0x6000 + i)
+            short = c04.mini_pel(b"O", [(b"UD", 1, rng.choice([1, 2]), 0xE500, b"\0\0\0\2" + sig[4:9]), (b"UD", 1, 1, 0x2000, b"{}" * 8)])
+            j = dirgen.set_ids(short[:len(short) - rng.randrange(1, 12)], eid=0x6800 + i)
+            a, b = ("m_plug_%d" % i, "a_plug_%d" % i) if rng.random() < 0.7 else ("a_plug_%d" % i, "m_plug_%d" % i)
+            good.append((a, g, dict(kind="pel", eid=0x6000 + i)))
+            junk.append((b, j, dict(kind="junk")))
+        if rng.random() < 0.3:
+            junk.append((rng.choice(["0_gone_%d", "m_gone_%d.pel", "zz_gone_%d"]) % i, b"", dict(kind="unreadable")))
         bits = rng.choice([1, 1, 0, rng.randrange(64)])
         check_pair(run, model, rng, good, junk, plugins, bits, i)
     if bad:
